@@ -134,11 +134,12 @@ def solve_one(args):
     for name, cmd, hard in stages:
         r, why, t = _cli_check(cmd, smt, hard)
         ms += t
-        if r == 'sat' and not name.startswith(f'z3-{z3.get_version_string()}'):
-            # only the primary solver's `sat` counts as a refutation: the older z3 and cvc5 answered `sat` on obligations over
-            # recursive spec functions that z3 5.1 proves (observed under load, when the primary's first slice timed out) --
-            # a wrong `sat` is a false alarm, a wrong `unsat` has not been observed and two further solvers would have to agree
-            reasons.append(f'{name}: sat (not accepted from a fallback solver)')
+        if r == 'sat' and not name.startswith(f'z3-{z3.get_version_string()}') and ('define-fun-rec' in smt or 'define-funs-rec' in smt):
+            # an obligation over RECURSIVE spec functions: only the primary solver's `sat` counts as a refutation.  z3 4.8.12 answered
+            # `sat` on such an obligation that z3 5.1 proves (observed under load, when the primary's first slice had timed out: a false
+            # alarm on a harmless edit).  Without recursive definitions the fallback solvers' `sat` (a model checked against the
+            # quantified assumptions) is accepted: the primary often answers `unknown` there
+            reasons.append(f'{name}: sat (not accepted from a fallback solver for recursive definitions)')
             continue
         if r in ('sat', 'unsat'):
             res, backend = r, name
